@@ -969,6 +969,7 @@ package ion
 //@ split returns
 //@ modifies *
 //@ counts (*bufstack).push
+//@ atcall[C04,C12] (*binaryWriter).writeLST len(w.annotations) == 0 && w.fieldName == nil
 //@ ensures[C12,C19] old(w.err) != nil ==> err == old(w.err) && w.err == old(w.err)
 //@ ensures[C12] err == nil && old(w.err) == nil && old(len(w.bufs.arr)) > 0 && old(w.bufs.arr[len(w.bufs.arr)-1]) != nil ==> vcCalls("(*bufstack).push") == 1
 //@ ensures[C12] old(len(w.bufs.arr)) == 0 ==> vcCalls("(*bufstack).push") == 0
@@ -1205,7 +1206,7 @@ package ion
 //@ ensures[C12,C19] old(w.err) != nil ==> err == old(w.err) && w.err == old(w.err)
 //@ ensures[C12,C19] err != nil ==> w.err != nil
 //@ atcall[C04,C13] (*binaryWriter).writeValue len(a2) == 1 || len(a2) == 5 || len(a2) == 9
-//@ atcall[C01,C13] (*binaryWriter).writeValue len(a2) == 1 ==> a2[0] == 0x40 && val == 0 && !math.Signbit(val)
+//@ atcall[C01,C13,C20] (*binaryWriter).writeValue len(a2) == 1 ==> a2[0] == 0x40 && val == 0 && !math.Signbit(val)
 //@ atcall[C01,C13] (*binaryWriter).writeValue len(a2) == 5 ==> a2[0] == 0x44 && (val != val || float64(math.Float32frombits(uint32(specBEValue(a2, 1, 4)))) == val)
 //@ atcall[C01,C13] (*binaryWriter).writeValue len(a2) == 5 && val != val ==> math.Float32frombits(uint32(specBEValue(a2, 1, 4))) != math.Float32frombits(uint32(specBEValue(a2, 1, 4)))
 //@ atcall[C01,C13] (*binaryWriter).writeValue len(a2) == 9 ==> a2[0] == 0x48 && math.Float64frombits(specBEValue(a2, 1, 8)) == val && val == val
@@ -1314,6 +1315,7 @@ package ion
 //@ ensures[C19] old(len(t.buffer)) == 0 && old(tkAvail(t)) == 1 && old(tkByte(t, 0)) == 13 && old(tkS(t).end) != io.EOF ==> err != nil
 //@ ensures[C02,C08] forall k int :: 0 <= k && k < len(t.buffer) ==> t.buffer[k] == old(t.buffer[k])
 //@ ensures[C02,C08] old(len(t.buffer)) == 0 ==> len(t.buffer) == 0
+//@ ensures[C19] err != nil ==> err != io.EOF
 //@ safe[C06]
 
 //@ func (*tokenizer).unread
@@ -2146,11 +2148,16 @@ package ion
 // skipper.go: skipping a long string (C02, C08). Skipping consumes what reading would: the
 // character after a backslash is consumed, not looked at; and the character that follows the
 // closing quotes (after whitespace) is pushed back exactly once when the string has ended.
+// Look-ahead reports a failing read as that failure: it says "end of input" only when the
+// input really ended (or an end marker had been pushed back) (C19).
 //@ func (*tokenizer).peekN
-//@ trusted thin: called by contract (look-ahead; assumed to keep the input attached)
+//@ split returns
 //@ requires tkStream(t)
 //@ modifies *
-//@ ensures tkStream(t)
+//@ invariant loop0 [err error] tkStream(t) && err == nil && (old(len(t.buffer)) == 0 ==> len(t.buffer) == 0) && tkS(t) == old(tkS(t)) && tkS(t).end == old(tkS(t).end)
+//@ invariant loop1 [err error] tkStream(t) && tkS(t) == old(tkS(t)) && (old(len(t.buffer)) == 0 && old(tkS(t).end) != io.EOF ==> err != io.EOF)
+//@ ensures[C06,C19] tkStream(t)
+//@ ensures[C19] old(len(t.buffer)) == 0 && old(tkS(t).end) != io.EOF ==> err != io.EOF
 //@ func (*tokenizer).skipN
 //@ trusted thin: called by contract
 //@ requires tkStream(t)
